@@ -135,9 +135,81 @@ def runFile (path : String) : IO Unit := do
       inSeq := false
     else if inSeq then ops := ops.push line
 
+def boolS (b : Bool) : String := if b then "true" else "false"
+
+def hexByte? (a b : Char) : Option Nat :=
+  match hexVal? a.toLower, hexVal? b.toLower with
+  | some x, some y => some (x * 16 + y)
+  | _, _ => none
+
+def hexBytes : Str → List Nat
+  | a :: b :: rest => (match hexByte? a b with | some v => [v] | none => []) ++ hexBytes rest
+  | _ => []
+
+def frameS : Codec.Frame → String
+  | .line s => "L:" ++ toS (esc s)
+  | .tooLong => "E:" ++ toS (esc (str "max line length exceeded"))
+  | .badUtf8 => "E:" ++ toS (esc (str "Unable to decode input as UTF8"))
+  | .bytesRemaining => "E:" ++ toS (esc (str "bytes remaining on stream"))
+
+/-- one pure-function call (format of `irc-harness fn`). -/
+def fnCall (t : List Str) : String :=
+  match t with
+  | f :: args =>
+    let a (i : Nat) : Str := unesc (args.getD i [])
+    let name := toS f
+    if name == "mw" then boolS (matchWildcard (a 0) (a 1))
+    else if name == "glob" then boolS (glob (a 0) (a 1))
+    else if name == "norm" then toS (esc (normalizeSourcemask (a 0)))
+    else if name == "vsrc" then boolS (validateSource (a 0))
+    else if name == "vuser" then boolS (validateUsername (a 0))
+    else if name == "vchan" then boolS (validateChannel (a 0))
+    else if name == "vsrv" then boolS (validateServer (a 0))
+    else if name == "vsrvmask" then boolS (validateServerMask (a 0))
+    else if name == "vpchan" then boolS (validatePrefixedChannel (a 0))
+    else if name == "msg" then
+      match Message.parse (a 0) with
+      | .ok m => "Ok " ++ toS (esc m.debug)
+      | .error e => "Err " ++ toS e.debug
+    else if name == "render" then
+      match Message.parse (a 0) with
+      | .ok m => "Ok " ++ toS (esc (m.render (a 1)))
+      | .error e => "Err " ++ toS e.debug
+    else if name == "cmd" then
+      match Message.parse (a 0) with
+      | .ok m =>
+        match Command.fromMessage m with
+        | .ok c => "Ok " ++ toS (esc c.debug)
+        | .error e => "CmdErr " ++ toS (esc e.render)
+      | .error e => "Err " ++ toS e.debug
+    else if name == "tt" then
+      let (tt, s) := getPrivmsgTargetType (a 0)
+      toString tt.bits ++ " " ++ toS (esc s)
+    else if name == "chum" then
+      let bits := natOf (args.getD 0 [])
+      let m : ChanUserModes := { founder := bits % 2 == 1, prot := bits / 2 % 2 == 1,
+                                 operator := bits / 4 % 2 == 1, halfOper := bits / 8 % 2 == 1,
+                                 voice := bits / 16 % 2 == 1 }
+      toS (esc (m.prefixStr (args.getD 1 [] == ['1'])))
+    else if name == "umodes" then toS (esc (modesOf (a 0)).render)
+    else if name == "codec" then
+      let max := natOf (args.getD 0 [])
+      let chunks := (args.drop 1).map (fun c => if c == ['-'] then [] else hexBytes c)
+      let fr := Codec.codecRun max chunks
+      if fr.isEmpty then "none" else String.intercalate " " (fr.map frameS)
+    else "unknown-fn " ++ name
+  | [] => "unknown-fn"
+
+def fnFile (path : String) : IO Unit := do
+  let content ← IO.FS.readFile path
+  for raw in content.splitOn "\n" do
+    if raw.isEmpty || raw.startsWith "#" then continue
+    IO.println (fnCall (words raw))
+
 def main (args : List String) : IO UInt32 := do
   match args with
   | ["run", path] => runFile path; return 0
+  | ["fn", path] => fnFile path; return 0
   | _ =>
     IO.eprintln "usage: ircmodel run <ops-file>"
     return 2
